@@ -59,8 +59,8 @@ func plans(tier string) []tierPlan {
 	if tier == engine.Thorough {
 		return []tierPlan{
 			{"all templates at every level, D<=3", genOpts{}, []int{1, 2, 3}},
-			{"root from all templates, inner levels from the core subset, D=4", genOpts{coreFrom: 2}, []int{4}},
-			{"spines (one filled hole per form) over the core subset below the root, D=5", genOpts{coreFrom: 2, spine: true}, []int{5}},
+			{"all four levels from the core subset, D=4", genOpts{coreFrom: 1}, []int{4}},
+			{"spines (one filled hole per form) over the spine subset, D=5", genOpts{spineFrom: 1, spine: true}, []int{5}},
 		}
 	}
 	return []tierPlan{
@@ -84,14 +84,17 @@ func bound(tier string) string {
 	for _, pl := range plans(tier) {
 		parts = append(parts, pl.what)
 	}
-	nCore := 0
+	nCore, nSpine := 0, 0
 	for _, t := range templates {
-		if t.core {
+		if 1 <= t.rank {
 			nCore++
 		}
+		if 2 <= t.rank {
+			nSpine++
+		}
 	}
-	return fmt.Sprintf("%d templates (%d in the core subset), nesting depth <= 6, deviations D counted including the root form: %s; "+
-		"quote: %d data x %d contexts x 2 notations", len(templates), nCore, strings.Join(parts, "; "), len(datums), len(quoteCtxs))
+	return fmt.Sprintf("%d templates (%d in the core subset, %d in the spine subset), nesting depth <= 6, deviations D counted including the root form: %s; "+
+		"quote: %d data x %d contexts x 2 notations", len(templates), nCore, nSpine, strings.Join(parts, "; "), len(datums), len(quoteCtxs))
 }
 
 // ---------------------------------------------------------------- running
@@ -388,11 +391,152 @@ func exec(spec string) (res engine.Result) {
 	if v.ok {
 		return
 	}
-	core, cv := minimise(t, prefix, 300)
-	detail := cv.describe()
-	if core.String() != t.String() {
-		detail += fmt.Sprintf(" [reduced from %s: %s]", spec[2:], v.describe())
+	for _, f := range attribute(t, prefix, &v) {
+		res.Fail(f.Sig, f.Detail)
 	}
-	res.Fail(fmt.Sprintf("core=%s kind=%s", core, cv.kind), detail)
+	return
+}
+
+// ---------------------------------------------------------------- attribution
+
+// A failing program is attributed to the smallest failing programs it
+// contains, so that one defect gives the same signature wherever it shows:
+//  1. every template of the program that already fails on its own (all holes
+//     default) is reported as  form=<family>:<name> kind=...;
+//  2. every parent/child pair of templates that fails as a two-template
+//     program is reported as  form=<family> hole=<role> inner=<name> kind=...;
+//  3. the parts found in 1 and 2 are cut out (replaced by default leaves) and
+//     what remains is judged again (rule S9: a known defect must not blind the
+//     rest of the case); if it still fails it is reduced greedily and reported
+//     as  core=<reduced term> kind=....
+// The verdicts of single templates and of pairs are pure functions of the
+// template names, so they are cached per process.
+var (
+	singleCache = map[string]*verdict{}
+	pairCache   = map[string]*verdict{}
+)
+
+func defaultsOf(kind string) *term {
+	t := &term{kind: kind}
+	for i := 0; i < arity(kind); i++ {
+		t.kids = append(t.kids, leafTerm())
+	}
+	return t
+}
+
+func singleVerdict(name string) *verdict {
+	if v, has := singleCache[name]; has {
+		return v
+	}
+	v := judge(defaultsOf(name), "c01single"+name)
+	singleCache[name] = &v
+	return &v
+}
+
+func pairVerdict(outer string, i int, inner string) *verdict {
+	key := fmt.Sprintf("%s|%d|%s", outer, i, inner)
+	if v, has := pairCache[key]; has {
+		return v
+	}
+	t := defaultsOf(outer)
+	t.kids[i] = defaultsOf(inner)
+	var v verdict
+	if valid(t, 'a', scope{}) {
+		v = judge(t, fmt.Sprintf("c01pair%sh%d%s", outer, i, inner))
+	} else {
+		v.ok = true
+	}
+	pairCache[key] = &v
+	return &v
+}
+
+func holeRole(k byte) string {
+	switch k {
+	case 't', 'f':
+		return "test"
+	case 'i', 'c', '0', '1', '2', '3', '4', '5', '6', '7', '8', '9':
+		return "integer-operand"
+	case 'l', 'n':
+		return "list-operand"
+	case 'r':
+		return "value-position"
+	}
+	return "evaluated-for-effect-or-value"
+}
+
+func isTemplate(t *term) bool { return t.kind != "_" && !strings.HasPrefix(t.kind, "$") }
+
+func attribute(t *term, prefix string, whole *verdict) (out []engine.Failure) {
+	seen := map[string]bool{}
+	add := func(sig, detail string) {
+		if !seen[sig] {
+			seen[sig] = true
+			out = append(out, engine.Failure{Sig: sig, Detail: detail})
+		}
+	}
+	from := fmt.Sprintf(" [found in %s: %s]", t, whole.describe())
+	cut := map[*term]bool{}
+	var walk func(n *term)
+	walk = func(n *term) {
+		if !isTemplate(n) {
+			for _, k := range n.kids {
+				walk(k)
+			}
+			return
+		}
+		tp := tmplByName[n.kind]
+		if sv := singleVerdict(n.kind); !sv.ok && sv.skip == "" {
+			d := sv.describe()
+			if n != t || 1 < t.deviations() {
+				d += from
+			}
+			add(fmt.Sprintf("form=%s:%s kind=%s", tp.family, tp.name, sv.kind), d)
+			cut[n] = true
+			return
+		}
+		for i, k := range n.kids {
+			if isTemplate(k) && singleVerdict(k.kind).ok {
+				if pv := pairVerdict(n.kind, i, k.kind); !pv.ok && pv.skip == "" {
+					d := pv.describe()
+					if n != t || 2 < t.deviations() {
+						d += from
+					}
+					add(fmt.Sprintf("form=%s hole=%s inner=%s kind=%s", tp.family, holeRole(tp.holes[i].kind), k.kind, pv.kind), d)
+					cut[k] = true
+					continue
+				}
+			}
+			walk(k)
+		}
+	}
+	walk(t)
+	rest := t
+	if 0 < len(cut) {
+		if cut[t] {
+			return
+		}
+		var rebuild func(n *term) *term
+		rebuild = func(n *term) *term {
+			if cut[n] {
+				return leafTerm()
+			}
+			c := &term{kind: n.kind}
+			for _, k := range n.kids {
+				c.kids = append(c.kids, rebuild(k))
+			}
+			return c
+		}
+		rest = rebuild(t)
+		rv := judge(rest, prefix+"r")
+		if rv.ok || rv.skip != "" {
+			return
+		}
+	}
+	core, cv := minimise(rest, prefix, 300)
+	d := cv.describe()
+	if core.String() != t.String() {
+		d += from
+	}
+	add(fmt.Sprintf("core=%s kind=%s", core, cv.kind), d)
 	return
 }
